@@ -2904,10 +2904,15 @@ class Data(Container, NetCDFHDF5, Files, core.Data):
         # types that differ only in their lengths are the same type
         # (the length is that of the longest string that happens to
         # be in memory, so it changes when file data are subspaced).
+        # Data types that differ only in their byte orders are also
+        # the same type (the byte order is that of the data as stored
+        # in memory or on disk, e.g. data read from a file that was
+        # written with a non-native endian-ness).
         if (
             not ignore_data_type
             and self.dtype != other.dtype
             and not (self.dtype.kind in "SU" and other.dtype.kind in "SU")
+            and self.dtype.newbyteorder("=") != other.dtype.newbyteorder("=")
         ):
             logger.info(
                 f"{self.__class__.__name__}: Different data types: "
